@@ -62,6 +62,9 @@ void ddp_replace_char_in_string(ddpstring *str, ddpchar ch, ddpint index) {
 	size_t oldCharLen = utf8_num_bytes(str->str + i);
 	char newChar[5];
 	size_t newCharLen = utf8_char_to_string(newChar, ch);
+	if (newCharLen == (size_t)-1) { // ch is not a unicode character, it has no utf8 representation
+		ddp_runtime_error(1, "Der Buchstabe mit dem Wert " DDP_INT_FMT " ist kein gültiges Unicode Zeichen und kann nicht in einem Text gespeichert werden\n", (ddpint)ch);
+	}
 
 	if (oldCharLen == newCharLen) { // no need for allocations
 		memcpy(str->str + i, newChar, newCharLen);
